@@ -4,25 +4,22 @@ import SqlizeModel.Impl.ReaderMysql
 import SqlizeModel.Impl.Diff
 import SqlizeModel.Impl.Emit
 import SqlizeModel.Impl.Render
+import SqlizeModel.Spec.Props
+import SqlizeModel.Spec.Grammar
+import SqlizeModel.Spec.Scope
 
 namespace Sqlize.Driver
-open Sqlize Sqlize.Codec
-
-/-- how an `Except` outcome is shown to match the harness's `guard` encoding -/
-def outcome (r : M String) : String :=
-  match r with
-  | .ok s => s
-  | .error e => "panic:" ++ e
+open Sqlize Sqlize.Codec Sqlize.Spec
 
 def isPanic (s : String) : Bool := s.startsWith "panic:"
-def isUnmodelled (s : String) : Bool := (s.splitOn "UNMODELLED").length > 1
+def isUnmodelledMsg (s : String) : Bool := (s.splitOn "UNMODELLED").length > 1
 
 /-- compare an implementation observation with the model's outcome; panics are compared as "both panic" -/
 def expectOutcome (what : String) (model : M String) (impl : String) : Verdict :=
   match model with
   | .ok s => if s == impl then okV else corrFail what s impl
   | .error e =>
-    if isUnmodelled e then { skip := some ("unmodelled-path " ++ e) }
+    if isUnmodelledMsg e then unmodelled e
     else if isPanic impl then okV else corrFail what ("panic:" ++ e) impl
 
 def readScript (g : Globals) (m : Migration) (ss : List Stmt) : M Migration :=
@@ -37,8 +34,6 @@ structure PairRun where
   up : M String
   down : M String
   up2 : M String
-  upStmts : M (List (List Stmt))
-  downStmts : M (List (List Stmt))
 
 def runPairModel (g : Globals) (old new : List Stmt) : PairRun :=
   let mOld := readScript g {} old
@@ -50,21 +45,67 @@ def runPairModel (g : Globals) (old new : List Stmt) : PairRun :=
   let down := do let (_, ss) ← r2; renderMigration g ss
   let r3 := do let (d2, _) ← r2; d2.migrationUp g
   let up2 := do let (_, ss) ← r3; renderMigration g ss
-  { mOld, mNew, mDiff, up, down, up2, upStmts := r1.map (·.2), downStmts := r2.map (·.2) }
+  { mOld, mNew, mDiff, up, down, up2 }
 
-/-- (case id pair cfg (old...) (new...) ((errOld ..) (errNew ..) (stOld ..) ...)) — correspondence part -/
-def pairCorr (g : Globals) (run : PairRun) (obs : List SExp) : Verdict :=
+def pairCorr (run : PairRun) (obs : List SExp) : Verdict :=
   let o := fun k => (obsStr obs k).getD "<missing>"
   let errOf := fun (m : M Migration) => (m.map (fun _ => "ok"))
-  (expectOutcome "load(old)" (errOf run.mOld) (o "errOld")).and <|
-  (expectOutcome "load(new)" (errOf run.mNew) (o "errNew")).and <|
-  (expectOutcome "state(old)" (run.mOld.map stateDump) (o "stOld")).and <|
-  (expectOutcome "state(new)" (run.mNew.map stateDump) (o "stNew")).and <|
+  (expectOutcome "load-old" (errOf run.mOld) (o "errOld")).and <|
+  (expectOutcome "load-new" (errOf run.mNew) (o "errNew")).and <|
+  (expectOutcome "state-old" (run.mOld.map stateDump) (o "stOld")).and <|
+  (expectOutcome "state-new" (run.mNew.map stateDump) (o "stNew")).and <|
   (expectOutcome "Diff" (errOf run.mDiff) (o "errDiff")).and <|
-  (expectOutcome "state(diff)" (run.mDiff.map stateDump) (o "stDiff")).and <|
+  (expectOutcome "state-diff" (run.mDiff.map stateDump) (o "stDiff")).and <|
   (expectOutcome "StringUp" run.up (o "up")).and <|
   (expectOutcome "StringDown" run.down (o "down")).and <|
-  (expectOutcome "StringUp(2nd)" run.up2 (o "up2"))
+  (expectOutcome "StringUp-2nd" run.up2 (o "up2"))
+
+/-- sqlite prints `DROP INDEX name;` without a table: resolve it against the schema it runs on -/
+def resolveDropIndex (db : DB) : List Stmt → List Stmt
+  | [] => []
+  | .dropIndex "" n :: rest =>
+    let t := ((db.find? (fun tb => tb.idxs.any (·.name == n))).map (·.name)).getD ""
+    .dropIndex t n :: resolveDropIndex db rest
+  | s :: rest => s :: resolveDropIndex db rest
+
+/-- parse a migration text printed by the implementation -/
+def parseImpl (g : Globals) (what : String) (text : String) : Except String (List Stmt) :=
+  if isPanic text then .error s!"{what} panicked: {text}"
+  else match Grammar.parseScript g.dialect text with
+    | .ok ss => .ok ss
+    | .error e => .error s!"{what} is not accepted by the grammar: {e}"
+
+/-- the property predicates evaluated on the implementation's outputs -/
+def pairProps (g : Globals) (old new : List Stmt) (obs : List SExp) : Verdict :=
+  let o := fun k => (obsStr obs k).getD "<missing>"
+  match execAll true [] old, execAll true [] new with
+  | some dbOld, some dbNew =>
+    let up := parseImpl g "StringUp" (o "up")
+    let down := parseImpl g "StringDown" (o "down")
+    let r01 := fun (rc : Bool) => (do let u ← up; c01 g.ignoreOrder dbOld dbNew (resolveDropIndex dbOld u) rc : Check)
+    let r02 := fun (rc : Bool) => (do let d ← down; c02 g.ignoreOrder dbOld dbNew (resolveDropIndex dbNew d) rc : Check)
+    let r03 : Check := do let u ← up; let d ← down; c03 dbOld dbNew u d
+    let r13 := fun (rc : Bool) => (do
+      let u ← up; let d ← down
+      if g.ignoreOrder then do
+        c13NoPositions (u ++ d)
+        let uf ← parseImpl g "StringUp(default order setting)" (o "upFlip")
+        let df ← parseImpl g "StringDown(default order setting)" (o "downFlip")
+        c13Same uf u
+        c13Same df d
+      else do
+        -- default setting: the table ends up in the models' column order (the ordered equivalence of C01)
+        migrates false dbOld dbNew (resolveDropIndex dbOld u) rc : Check)
+    -- a failure that disappears when referential checks are switched off is an ordering-only failure (region F23)
+    let ordering := fun (r : Bool → Check) (region : Option String) =>
+      match region with
+      | some x => some x
+      | none => if (r true).toBool then none else if (r false).toBool then some "referential-ordering" else none
+    (judge "C01" (ordering r01 (Scope.c01 g dbOld dbNew old new)) (r01 true)).and <|
+    (judge "C02" (ordering r02 (Scope.c02 g dbOld dbNew old new)) (r02 true)).and <|
+    (judge "C03" (Scope.c03 g dbOld dbNew old new) r03).and <|
+    (judge "C13" (ordering r13 (Scope.c13 g dbOld dbNew old new)) (r13 true))
+  | _, _ => { items := ["illformed-input"] }
 
 def pairHandler : Handler
   | [cfg, old, new, .list obs] => do
@@ -72,7 +113,7 @@ def pairHandler : Handler
     let o ← decodeStmts old
     let n ← decodeStmts new
     let run := runPairModel g o n
-    some (pairCorr g run obs)
+    some ((pairCorr run obs).and (pairProps g o n obs))
   | _ => none
 
 end Sqlize.Driver
